@@ -404,17 +404,19 @@ impl MqttShared {
         let mut queues = self.queues.borrow_mut();
 
         // PUBCOMP packets follow the order of PUBREL packets, which is the order
-        // the application releases publishes in, look up the exchange by id
-        let item = if matches!(pkt, Ack::Complete(_)) {
-            let pos = queues.inflight.iter().position(|(idx, _, tp)| {
+        // the application releases publishes in, look up the exchange by id.
+        // Other acks follow the order of requests, exchanges that wait
+        // for PUBCOMP do not take part in it.
+        let pos = if matches!(pkt, Ack::Complete(_)) {
+            queues.inflight.iter().position(|(idx, _, tp)| {
                 *idx == pkt.packet_id() && matches!(tp, AckType::Complete)
-            });
-            match pos {
-                Some(pos) => queues.inflight.remove(pos),
-                None => queues.inflight.pop_front(),
-            }
+            })
         } else {
-            queues.inflight.pop_front()
+            queues.inflight.iter().position(|(_, _, tp)| !matches!(tp, AckType::Complete))
+        };
+        let item = match pos {
+            Some(pos) => queues.inflight.remove(pos),
+            None => queues.inflight.pop_front(),
         };
 
         // check ack order
